@@ -53,6 +53,9 @@ pub struct Injected(pub u32);
 #[derive(Default)]
 pub struct World {
     pub hs: BTreeMap<Id, Rc<Node>>,
+    /// program handles whose static type is still `Rc<MaybeUninit<Node>>` (two-phase
+    /// construction); they are kept in `hs` under the type they will have
+    pub uninit: std::collections::BTreeSet<Id>,
     pub ws: BTreeMap<Id, Weak<Node>>,
     pub raws: BTreeMap<Id, *const Node>,
     pub vals: BTreeMap<Id, Node>,
@@ -642,14 +645,91 @@ pub fn exec(op: &Op, dying: Option<&Node>) -> bool {
     did
 }
 
-fn exec_inner(op: &Op, dying: Option<&Node>) -> bool {
+fn as_uninit(r: Rc<Node>) -> Rc<std::mem::MaybeUninit<Node>> {
+    // same representation (one thin pointer); only the static type differs
+    unsafe { std::mem::transmute::<Rc<Node>, Rc<std::mem::MaybeUninit<Node>>>(r) }
+}
+
+fn as_init_typed(r: Rc<std::mem::MaybeUninit<Node>>) -> Rc<Node> {
+    unsafe { std::mem::transmute::<Rc<std::mem::MaybeUninit<Node>>, Rc<Node>>(r) }
+}
+
+/// `Rc::assume_init` on program handle `h` if its static type is still the uninit one.
+fn assume_now(h: Id) {
+    if !w(|w| w.uninit.remove(&h)) {
+        return;
+    }
+    let Some(r) = w(|w| w.hs.remove(&h)) else { return };
+    let before = verif::rcbox_addr(&r);
+    let u = as_uninit(r);
+    let r2 = sut(|| unsafe { u.assume_init() });
+    if verif::rcbox_addr(&r2) != before {
+        violation("identity", "assume_init-moved", "assume_init returned a handle to a different allocation");
+    }
+    w(|w| w.hs.insert(h, r2));
+    st(St::op_assume_init, 1);
+}
+
+/// Program handles a call uses in a way that needs the type `Rc<Node>`.
+fn needs_init(op: &Op) -> Vec<Id> {
     match *op {
-        Op::New { o, h } => {
+        Op::Drop { h } | Op::SelfSame { h } | Op::UnSelfSame { h } | Op::Downgrade { h, .. } | Op::TryUnwrap { h, .. } | Op::MakeMut { h, .. } | Op::GetMut { h } | Op::IntoRaw { h, .. } | Op::AssumeInit { h } => vec![h],
+        Op::Store { h, owner, adopt } => {
+            if adopt {
+                vec![h, owner]
+            } else {
+                vec![h]
+            }
+        }
+        Op::Take { owner, unadopt, .. } => {
+            if unadopt {
+                vec![owner]
+            } else {
+                vec![]
+            }
+        }
+        Op::SlotMakeMut { owner, .. } => vec![owner],
+        Op::Adopt { owner, target } | Op::Unadopt { owner, target } => {
+            let both = w(|w| w.uninit.contains(&owner) && w.uninit.contains(&target));
+            if both {
+                vec![]
+            } else {
+                vec![owner, target]
+            }
+        }
+        _ => vec![],
+    }
+}
+
+fn exec_inner(op: &Op, dying: Option<&Node>) -> bool {
+    if w(|w| !w.uninit.is_empty()) {
+        for h in needs_init(op) {
+            assume_now(h);
+        }
+    }
+    match *op {
+        Op::AssumeInit { h } => w(|w| w.hs.contains_key(&h)),
+        Op::New { o, h } | Op::NewU { o, h } => {
             if w(|w| w.hs.contains_key(&h)) || m(|m| m.objs.contains_key(&o)) {
                 return false;
             }
             let node = Node::new(o);
-            let r = sut(|| Rc::new(node));
+            let two_phase = matches!(*op, Op::NewU { .. });
+            let r = if two_phase {
+                sut(|| {
+                    let mut u = Rc::<Node>::new_uninit();
+                    unsafe {
+                        Rc::get_mut_unchecked(&mut u).as_mut_ptr().write(node);
+                    }
+                    as_init_typed(u)
+                })
+            } else {
+                sut(|| Rc::new(node))
+            };
+            if two_phase {
+                w(|w| w.uninit.insert(h));
+                st(St::op_new_uninit, 1);
+            }
             let addr = verif::rcbox_addr(&r);
             let vp = Rc::as_ptr(&r) as usize;
             m(|m| {
@@ -680,7 +760,12 @@ fn exec_inner(op: &Op, dying: Option<&Node>) -> bool {
             m(|m| {
                 m.ph.insert(d, o);
             });
-            w(|w| w.hs.insert(d, c));
+            w(|w| {
+                if w.uninit.contains(&h) {
+                    w.uninit.insert(d);
+                }
+                w.hs.insert(d, c)
+            });
             st(St::op_clone, 1);
             true
         }
@@ -782,10 +867,21 @@ fn exec_inner(op: &Op, dying: Option<&Node>) -> bool {
             if !ok {
                 return false;
             }
-            w(|w| {
-                let (o, t) = (w.hs.get(&owner).unwrap(), w.hs.get(&target).unwrap());
-                sut(|| unsafe { Rc::adopt_unchecked(o, t) });
-            });
+            if w(|w| w.uninit.contains(&owner)) {
+                // both handles are still `Rc<MaybeUninit<Node>>` (needs_init made sure)
+                let (o, t) = w(|w| (as_uninit(w.hs.remove(&owner).unwrap()), as_uninit(w.hs.remove(&target).unwrap())));
+                sut(|| unsafe { Rc::adopt_unchecked(&o, &t) });
+                w(|w| {
+                    w.hs.insert(owner, as_init_typed(o));
+                    w.hs.insert(target, as_init_typed(t));
+                });
+                st(St::f_adopt_before_assume_init, 1);
+            } else {
+                w(|w| {
+                    let (o, t) = (w.hs.get(&owner).unwrap(), w.hs.get(&target).unwrap());
+                    sut(|| unsafe { Rc::adopt_unchecked(o, t) });
+                });
+            }
             m(|m| m.ledger_add(oid, tid));
             st(St::op_adopt, 1);
             true
@@ -795,10 +891,19 @@ fn exec_inner(op: &Op, dying: Option<&Node>) -> bool {
                 return false;
             }
             let (oid, tid) = m(|m| (m.ph[&owner], m.ph[&target]));
-            w(|w| {
-                let (o, t) = (w.hs.get(&owner).unwrap(), w.hs.get(&target).unwrap());
-                sut(|| Rc::unadopt(o, t));
-            });
+            if w(|w| w.uninit.contains(&owner)) {
+                let (o, t) = w(|w| (as_uninit(w.hs.remove(&owner).unwrap()), as_uninit(w.hs.remove(&target).unwrap())));
+                sut(|| Rc::unadopt(&o, &t));
+                w(|w| {
+                    w.hs.insert(owner, as_init_typed(o));
+                    w.hs.insert(target, as_init_typed(t));
+                });
+            } else {
+                w(|w| {
+                    let (o, t) = (w.hs.get(&owner).unwrap(), w.hs.get(&target).unwrap());
+                    sut(|| Rc::unadopt(o, t));
+                });
+            }
             let had = m(|m| m.ledger_remove_one(oid, tid));
             st(St::op_unadopt, 1);
             if !had {
@@ -909,6 +1014,25 @@ fn exec_inner(op: &Op, dying: Option<&Node>) -> bool {
             });
             w(|w| w.ws.insert(d, c));
             st(St::op_weakclone, 1);
+            true
+        }
+        Op::WeakRaw { w: wid } => {
+            let Some(wk) = w(|w| w.ws.remove(&wid)) else { return false };
+            let (o, epoch) = m(|m| m.pw[&wid]);
+            let alive = m(|m| m.weak_alive(o, epoch));
+            let expect = w(|w| w.as_ptr.get(&(o, epoch)).copied());
+            let (p, wk2) = weak_call(move || {
+                let p = Weak::into_raw(wk);
+                (p as usize, unsafe { Weak::from_raw(p) })
+            });
+            w(|w| w.ws.insert(wid, wk2));
+            if alive && expect.map_or(false, |e| e != p) {
+                violation("api-result", "weak-into_raw-address", &format!("Weak::into_raw on a Weak to live object {o} returned {p:#x}, the value is at {:#x}", expect.unwrap()));
+            }
+            st(St::op_weakraw, 1);
+            if !alive {
+                st(St::f_weak_raw_round_trip_dead, 1);
+            }
             true
         }
         Op::WeakDrop { w: wid } => {
